@@ -576,8 +576,12 @@ REGISTRY = {
                       '1-3 (thorough: up to 8) starts) returns the same '
                       'object, keeps gates, locations, cycles and parameter '
                       'counts, stores one of the candidates, and none of the '
-                      'candidates is cheaper; bounded stand-in, nothing is '
-                      'proved',
+                      'candidates is cheaper; bounded stand-in.  Proved '
+                      '(pyvc, opaque mode) for the call with an Instantiater '
+                      'object: instantiate returns the circuit itself, asks '
+                      'is_capable once, calls multi_start_instantiate_inplace '
+                      'once with (self, target) and nothing else, or raises '
+                      'ValueError without having run it',
         'level_note': 'sentence 1 is floating point over all real '
                       'parameters: only sampled; multi_start_instantiate_'
                       'inplace (comprehension of opaque calls, sorted with a '
@@ -589,6 +593,7 @@ REGISTRY = {
                       'finding',
         'parts': [
             {'kind': 'custom', 'module': 'pybound.c19_checks'},
+            {'kind': 'pyvc', 'module': 'contracts.c19'},
         ],
         'rule': 'one evaluation = one circuit x target x parameter vector '
                 '(both paths), or one instantiate call',
